@@ -155,3 +155,241 @@ R.contract('calculate_bic', params={'model': Model, 'likelihood': Real, 'type': 
                "implies(type == 'mixed', result == likelihood + n_theta_random_effects(model) * log(n_individuals(model))"
                "        + n_theta_fixed_effects(model) * log(n_observations(model)))",
            ])
+
+
+# ------------------------------------------------------------------------------------------------
+# _categorize_parameters (mixed-effects BIC): every estimated parameter is counted at most once -
+# the "fixed effects" and "random effects" sets are disjoint subsets of the estimated parameters and
+# every estimated omega is a random-effects parameter.  Expressions, their free symbols and the
+# model's parameter/eta/epsilon sets are abstract (sympy code).
+# ------------------------------------------------------------------------------------------------
+SymT = Opaque('Sym')
+TRUSTED.append(
+    '_categorize_parameters: replace_non_random_rvs, get_individual_parameters, get_omegas, full_expression, '
+    'free_symbols and the parameter / eta / epsilon symbol sets of the model are uninterpreted functions (sympy '
+    'code); Python sets are characteristic functions with | & - as set union, intersection, difference')
+
+
+def _symbolic_cat():
+    import z3
+    from pyvc import sym
+    from pyvc.symexec import Val, MSet, PyTuple, BUILTINS
+    from pyvc.sym import TBool, TSeq, TOpaque
+
+    model = Model.resolve()
+    S = SymT.resolve()
+    SetS = z3.ArraySort(S.sort(), z3.BoolSort())
+    SeqS = TSeq(S)
+    Exp = TOpaque('FullExpr', {})
+    Dists = TOpaque('SelectedDists', {})
+    clean = z3.Function('replace_non_random_rvs', model.sort(), model.sort())
+    indpars = z3.Function('individual_parameters', model.sort(), SeqS.sort())
+    dvs = z3.Function('dependent_variable_symbols', model.sort(), SeqS.sort())
+    sets = {n: z3.Function(n, model.sort(), SetS) for n in
+            ('estimated_parameters', 'omega_symbols', 'eta_symbols', 'epsilon_symbols')}
+    full_before = z3.Function('full_expression_before_odes', model.sort(), S.sort(), Exp.sort())
+    full_after = z3.Function('full_expression_after_odes', model.sort(), S.sort(), Exp.sort())
+    free = z3.Function('free_symbols', Exp.sort(), SetS)
+    sel = z3.Function('select_rvs', model.sort(), SetS, Dists.sort())
+    dfree = z3.Function('dist_free_symbols', Dists.sort(), SetS)
+
+    class Path:
+        """an attribute path on the model that is resolved by the next attribute / call"""
+        def __init__(self, m, what):
+            self.m, self.what = m, what
+
+    def is_model(v):
+        return isinstance(v, Val) and v.ty == model
+
+    R.intrinsics['replace_non_random_rvs'] = lambda ex, st, a, kw, n: Val(model, clean(a[0].t))
+
+    def _indpars(ex, st, a, kw, n):
+        t = indpars(a[0].t)
+        ex.ops(st).known(SeqS, t)
+        return Val(SeqS, t)
+
+    R.intrinsics['get_individual_parameters'] = _indpars
+    R.intrinsics['get_omegas'] = lambda ex, st, a, kw, n: Path(a[0].t, 'omega_symbols')
+
+    prev_params = R.intrinsics.get('attr:parameters')
+
+    @R.intrinsic('attr:nonfixed')
+    def _nonfixed(ex, st, args, kwargs, node):
+        # model.parameters.nonfixed: used as len(...) by AIC/BIC (abstract count) and as .symbols here
+        return NotImplemented
+
+    @R.intrinsic('attr:symbols')
+    def _symbols(ex, st, args, kwargs, node):
+        b = args[0]
+        if isinstance(b, Path):
+            return b
+        if isinstance(b, Val) and b.ty.key() == 'Params':
+            # parameters.nonfixed.symbols of model m: the estimated parameters
+            src = ast_src(node.value)
+            if src.endswith('.parameters.nonfixed'):
+                m = ex.eval(node.value.value.value, st)
+                return Path(m.t, 'estimated_parameters')
+        return NotImplemented
+
+    def ast_src(n):
+        import ast
+        return ast.unparse(n)
+
+    @R.intrinsic('attr:random_variables')
+    def _rvs(ex, st, args, kwargs, node):
+        return Path(args[0].t, 'rvs') if is_model(args[0]) else NotImplemented
+
+    @R.intrinsic('attr:etas')
+    def _etas(ex, st, args, kwargs, node):
+        return Path(args[0].m, 'eta_symbols') if isinstance(args[0], Path) else NotImplemented
+
+    @R.intrinsic('attr:epsilons')
+    def _eps(ex, st, args, kwargs, node):
+        return Path(args[0].m, 'epsilon_symbols') if isinstance(args[0], Path) else NotImplemented
+
+    @R.intrinsic('set')
+    def _set(ex, st, args, kwargs, node):
+        if args and isinstance(args[0], Path) and args[0].what in sets:
+            return MSet(S, sets[args[0].what](args[0].m))
+        return BUILTINS['set'](ex, st, args, kwargs, node, False)
+
+    @R.intrinsic('attr:statements')
+    def _stmts(ex, st, args, kwargs, node):
+        return Path(args[0].t, 'statements') if is_model(args[0]) else NotImplemented
+
+    @R.intrinsic('attr:before_odes')
+    def _before(ex, st, args, kwargs, node):
+        return Path(args[0].m, 'before') if isinstance(args[0], Path) else NotImplemented
+
+    @R.intrinsic('attr:after_odes')
+    def _after(ex, st, args, kwargs, node):
+        return Path(args[0].m, 'after') if isinstance(args[0], Path) else NotImplemented
+
+    @R.intrinsic('method:full_expression')
+    def _full(ex, st, args, kwargs, node):
+        p = args[0]
+        if isinstance(p, Path) and p.what in ('before', 'after'):
+            f = full_before if p.what == 'before' else full_after
+            return Val(Exp, f(p.m, ex.to_term(args[1], S, st)))
+        return NotImplemented
+
+    @R.intrinsic('attr:free_symbols')
+    def _free(ex, st, args, kwargs, node):
+        b = args[0]
+        if isinstance(b, Val) and b.ty == Exp:
+            return MSet(S, free(b.t))
+        if isinstance(b, Val) and b.ty == Dists:
+            return MSet(S, dfree(b.t))
+        return NotImplemented
+
+    @R.intrinsic('attr:dependent_variables')
+    def _dv(ex, st, args, kwargs, node):
+        return Path(args[0].t, 'dvs') if is_model(args[0]) else NotImplemented
+
+    @R.intrinsic('method:keys')
+    def _keys(ex, st, args, kwargs, node):
+        if isinstance(args[0], Path) and args[0].what == 'dvs':
+            t = dvs(args[0].m)
+            ex.ops(st).known(SeqS, t)
+            return Val(SeqS, t)
+        return NotImplemented
+
+    @R.intrinsic('getitem')
+    def _getitem(ex, st, args, kwargs, node):
+        if isinstance(args[0], Path) and args[0].what == 'rvs' and isinstance(args[1], MSet):
+            return Val(Dists, sel(args[0].m, args[1].t))
+        return NotImplemented
+
+    def setop(fn):
+        def h(ex, st, args, kwargs, node):
+            a, b = args
+            if isinstance(a, MSet) and isinstance(b, MSet):
+                return MSet(S, fn(a.t, b.t))
+            return NotImplemented
+        return h
+
+    R.intrinsics['binop:BitOr'] = setop(z3.SetUnion)
+    R.intrinsics['binop:BitAnd'] = setop(z3.SetIntersect)
+    R.intrinsics['binop:Sub'] = setop(z3.SetDifference)
+    R.intrinsics['method:intersection'] = setop(z3.SetIntersect)
+
+    @R.intrinsic('method:isdisjoint')
+    def _isdisjoint(ex, st, args, kwargs, node):
+        a, b = args
+        if isinstance(a, MSet) and isinstance(b, MSet):
+            return Val(TBool, z3.SetIntersect(a.t, b.t) == z3.EmptySet(S.sort()))
+        return NotImplemented
+
+    # spec functions
+    def as_set(ex, st, v):
+        if isinstance(v, MSet):
+            return v.t
+        raise TypeError('set expected')
+
+    R.intrinsics['disjoint'] = lambda ex, st, a, kw, n: Val(
+        TBool, z3.SetIntersect(as_set(ex, st, a[0]), as_set(ex, st, a[1])) == z3.EmptySet(S.sort()))
+    R.intrinsics['subset'] = lambda ex, st, a, kw, n: Val(TBool, z3.IsSubset(as_set(ex, st, a[0]), as_set(ex, st, a[1])))
+    for nm in sets:
+        def mk(nm):
+            return lambda ex, st, a, kw, n: MSet(S, sets[nm](clean(a[0].t)))
+        R.intrinsics[nm] = mk(nm)
+
+
+try:
+    import z3  # noqa: F401
+    _symbolic_cat()
+except ImportError:
+    pass
+
+
+def _native_cat():
+    def cleaned(model):
+        from pharmpy.modeling.results import replace_non_random_rvs
+        return replace_non_random_rvs(model)
+
+    R.natives.update({
+        'disjoint': lambda a, b: not (set(a) & set(b)),
+        'subset': lambda a, b: set(a) <= set(b),
+        'estimated_parameters': lambda m: set(cleaned(m).parameters.nonfixed.symbols),
+        'omega_symbols': lambda m: set(__import__('pharmpy.modeling', fromlist=['get_omegas']).get_omegas(cleaned(m)).symbols),
+    })
+
+
+_native_cat()
+
+INV = ['disjoint(fixedpars, randpars)',
+       'subset(fixedpars, estimated_parameters(old(model)))', 'subset(randpars, estimated_parameters(old(model)))',
+       'subset(omega_symbols(old(model)) & estimated_parameters(old(model)), randpars)',
+       'model == replace_non_random_rvs(old(model))']
+c = R.contract(
+    '_categorize_parameters', params={'model': Model},
+    locals={'fixedpars': SetOf(SymT), 'randpars': SetOf(SymT)},
+    ensures=[
+        # no estimated parameter is counted both as a fixed-effects and as a random-effects parameter
+        'disjoint(result[0], result[1])',
+        'subset(result[0], estimated_parameters(old(model))) and subset(result[1], estimated_parameters(old(model)))',
+        # every estimated variance/covariance parameter of the etas counts as a random-effects parameter
+        'subset(omega_symbols(old(model)) & estimated_parameters(old(model)), result[1])',
+    ],
+    loops=[Loop(counter='ki', inv=INV), Loop(counter='kd', inv=INV)],
+    domain='gen_cat_models')
+
+
+def gen_cat_models(tier):
+    import warnings
+    warnings.simplefilter('ignore')
+    import pharmpy.modeling as pm
+
+    base = [pm.load_example_model('pheno'), pm.load_example_model('moxo')]
+    out = list(base)
+    for m in base:
+        for f in (lambda m: pm.add_peripheral_compartment(m), lambda m: pm.set_first_order_absorption(m),
+                  lambda m: pm.add_iiv(m, ['S1'], 'exp') if 'S1' in [str(s.symbol) for s in m.statements if hasattr(s, 'symbol')] else m,
+                  lambda m: pm.fix_parameters(m, [m.parameters.names[0]]),
+                  lambda m: pm.set_combined_error_model(m)):
+            try:
+                out.append(f(m))
+            except Exception:
+                pass
+    for m in out:
+        yield {'model': m}
